@@ -10,6 +10,7 @@ import NgVerif.Model.Coords
 import NgVerif.Model.Conv
 import NgVerif.Model.Down
 import NgVerif.Model.Pyramid
+import NgVerif.Model.Scales
 /-
   ngdriver: line protocol. One request per line on stdin (space-separated tokens),
   one reply per line on stdout. Unknown / malformed requests answer `bad-request`.
@@ -304,6 +305,16 @@ def handle (toks : List String) : String :=
         "ok " ++ showList (fun p => match Pyramid.sourceStart a p with
           | .ok s => toString s | .error e => showE e) (List.range ns)
     | _, _, _, _ => "bad-request"
+  | ["scales", sizes, delays, e, maxs] =>
+    match parseList parseNat sizes, parseList parseNat delays, parseNat e with
+    | some sz, some ds, some e =>
+      let ms := if maxs == "none" then none else parseNat maxs
+      let n := Scales.count sz ds e ms
+      ";".intercalate ((List.range n).map fun L =>
+        showNatList ((List.zip sz ds).map fun (s, d) => Scales.sizeAt s L d) ++ "/" ++
+        showNatList (Scales.chunkSizes ds e L) ++ "/" ++
+        showNatList (ds.map fun d => Scales.fac L d))
+    | _, _, _ => "bad-request"
   | _ => "bad-request"
 
 partial def loop (h : IO.FS.Stream) (out : IO.FS.Stream) : IO Unit := do
